@@ -35,13 +35,17 @@ import (
 // resolution rule "type's own package" applied to a generic type.
 
 func specialCases(tier string) []string {
-	one := []string{"nestvis:" + visAllExported, "nestvis:" + visAllUnexported, "nestvis:" + visMixed, "tpgeneric"}
+	one := []string{"nestvis:" + visAllExported, "nestvis:" + visAllUnexported, "nestvis:" + visMixed, "tpgeneric", "multi", "ondemand"}
 	if tier != "thorough" {
 		return one
 	}
 	var out []string
 	for i := 0; i < 4; i++ {
-		out = append(out, one...)
+		if i < 2 {
+			out = append(out, one...)
+		} else {
+			out = append(out, one[:4]...) // the two large cases (multi, ondemand) are drawn twice
+		}
 	}
 	return out
 }
@@ -170,10 +174,10 @@ func nestVisOf(t *TX, x *Derive) []string {
 			if d.NestVis != "" && d.IsStruct && hasMutableStorage(t, map[*Decl]bool{}) {
 				regime := "plain"
 				switch {
-				case d.NoInstance:
-					regime = "plain-without-instance"
 				case x.Recursive:
 					regime = "recursive"
+				case d.NoInstance:
+					regime = "plain-without-instance"
 				}
 				k := d.NestVis + "/" + regime
 				if !seen[k] {
@@ -292,8 +296,192 @@ func genSpecial(r *rand.Rand, what string) *Case {
 	if mix, ok := strings.CutPrefix(what, "nestvis:"); ok {
 		return genNestVisCase(r, mix)
 	}
-	if what == "tpgeneric" {
+	switch what {
+	case "tpgeneric":
 		return genTpGenericCase(r)
+	case "multi":
+		return genMultiCase(r)
+	case "ondemand":
+		return genOnDemandCase(r)
 	}
 	panic("unknown special case " + what)
+}
+
+// ---- several directives whose CONTEXTS differ, in both orders ----------------------------------------------
+//
+// gombok resolves the instances of all directives of a package in one run; whatever it remembers
+// between directives must not leak the context of one directive (its recursive=true flag, its derive
+// package) into the next. Forced case "multi" = four working packages:
+//
+//	mp (plain-first), mr (recursive-first): nested plain structs IN<k> for which NOTHING is declared, used
+//	  (directly and inside a container) by outer structs OP<k> with a plain Clone directive and OR<k> with
+//	  a recursive=true Clone directive, the directives in that / the opposite order. Under the plain
+//	  directive gombok takes the catch-all clone.Given (known finding .../plain-without-instance, or a
+//	  refusal); under recursive=true it must derive CloneIN<k> on demand whatever it resolved before:
+//	  a clone of OR<k> that shares IN<k>'s storage is keyed .../nested-plain-struct/<mix>/recursive.
+//	dl (library-first), da (alternative-first): structs with string fields (direct, in slice / Seq /
+//	  Option / pointer / map value / Tuple2) deriving Eq and Show alternately through the library's
+//	  eq / show package and through the scratch module's own derive packages foldeq / upshow, whose
+//	  String instances behave differently (case-insensitive equality; upper-case rendering between
+//	  marks); recursive=true directives of both kinds with a nested plain struct derived on demand
+//	  (it inherits the directive's derive package), and structs holding a struct derived through the
+//	  OTHER package (the nested instance keeps its own). The reference follows the documented order
+//	  working package -> type's package -> the directive's derive package.
+func genMultiCase(r *rand.Rand) *Case {
+	c := &Case{}
+	for _, recFirst := range []bool{false, true} {
+		p := &Pkg{Name: "mp", Tag: "plain-first", UndeclaredOK: map[string]bool{}, UndeclaredPrefix: "Clone"}
+		if recFirst {
+			p.Name, p.Tag = "mr", "recursive-first"
+		}
+		g := &gctx{r: r, p: p, c: c}
+		for k, mix := range []string{visAllExported, visMixed} {
+			in := g.nestedStruct(fmt.Sprintf("IN%d", k+1), mix, k == 1)
+			in.NoInstance = true
+			p.UndeclaredOK["Clone"+in.Name] = true
+			op := g.outerOf(fmt.Sprintf("OP%d", k+1), in, k == 1)
+			or := g.outerOf(fmt.Sprintf("OR%d", k+1), in, k == 1)
+			if recFirst {
+				g.derive(TCSet(0).With(Clone), or, true)
+				g.derive(TCSet(0).With(Clone), op, false)
+			} else {
+				g.derive(TCSet(0).With(Clone), op, false)
+				g.derive(TCSet(0).With(Clone), or, true)
+			}
+		}
+		c.Pkgs = append(c.Pkgs, p)
+	}
+	for _, altFirst := range []bool{false, true} {
+		p := &Pkg{Name: "dl", Tag: "library-first"}
+		if altFirst {
+			p.Name, p.Tag = "da", "alternative-first"
+		}
+		g := &gctx{r: r, p: p, c: c}
+		str := func() *TX { return basic("string") }
+		wrappers := []func() *TX{
+			func() *TX { return wrap(KSlice, str()) }, func() *TX { return wrap(KSeq, str()) }, func() *TX { return wrap(KOption, str()) },
+			func() *TX { return wrap(KPtr, str()) }, func() *TX { return wrap(KMap, basic("int"), str()) }, func() *TX { return wrap(KTuple2, str(), basic("int")) },
+			func() *TX { return wrap(KSlice, wrap(KOption, str())) }, func() *TX { return wrap(KOption, wrap(KSeq, str())) },
+		}
+		mk := func(name string, extra ...Field) *Decl {
+			d := &Decl{Name: name, IsStruct: true, Shape: "multi-derive-package"}
+			ts := []*TX{str(), basic(pick(r, []string{"int", "int64", "uint8"})), pick(r, wrappers)(), pick(r, wrappers)()}
+			r.Shuffle(len(ts), func(i, j int) { ts[i], ts[j] = ts[j], ts[i] })
+			for i, t := range ts {
+				d.Fields = append(d.Fields, Field{fmt.Sprintf("X%d", i+1), t})
+			}
+			for _, f := range extra {
+				d.Fields = append(d.Fields, f)
+			}
+			return g.add(d)
+		}
+		both := func(d *Decl, rec, alt bool) {
+			e, s := "", ""
+			if alt {
+				e, s = "foldeq", "upshow"
+			}
+			g.deriveDP(Eq, d, rec, e)
+			g.deriveDP(Show, d, rec, s)
+		}
+		// alternating directives: L1, L3 through one kind of package, L2, L4 through the other
+		l1, l2 := mk("L1"), mk("L2")
+		both(l1, false, altFirst)
+		both(l2, false, !altFirst)
+		both(mk("L3"), false, altFirst)
+		both(mk("L4"), false, !altFirst)
+		// recursive=true with a nested plain struct derived on demand: it inherits the directive's derive package
+		for k, alt := range []bool{altFirst, !altFirst} {
+			ns := &Decl{Name: fmt.Sprintf("NS%d", k+1), IsStruct: true, NestVis: visAllExported, Shape: "multi-derive-package-nested"}
+			ns.Fields = []Field{{"S", str()}, {"N", basic("int")}, {"T", wrap(KSlice, str())}}
+			g.add(ns)
+			both(mk(fmt.Sprintf("R%d", k+1), Field{"Xn", named(ns)}, Field{"Xs", wrap(pick(r, []Kind{KSlice, KOption, KSeq}), named(ns))}), true, alt)
+		}
+		// a struct derived through one package holding a struct derived through the other
+		both(mk("H1", Field{"Xh", named(l2)}), false, altFirst)
+		both(mk("H2", Field{"Xh", wrap(KSlice, named(l1))}), false, !altFirst)
+		c.Pkgs = append(c.Pkgs, p)
+	}
+	c.Shapes = append(c.Shapes, "multi.plain-first", "multi.recursive-first", "multi.library-derive-package-first", "multi.alternative-derive-package-first")
+	c.ensure(r)
+	sort.Strings(c.Shapes)
+	return c
+}
+
+// ---- on-demand derivation reached through every container kind, depth 2-3 ---------------------------------
+//
+// Forced case "ondemand": one working package; only the two root structs carry directives
+// (recursive=true, all six typeclasses; the root with Go maps the four that support maps). Root field
+// k holds, inside container kind c_k (slice, Seq, Option, pointer, Tuple2 / map value), a plain struct
+// N<k> for which nothing is declared; N<k> holds a plain struct LA<k> directly (depth 2) and a plain
+// struct LB<k> inside the NEXT container kind (depth 3); the leaves hold a slice, a pointer and basic
+// values. Every instance below the roots has to be derived on demand, and the on-demand derivations
+// must themselves be recursive: Clone must not share the leaves' storage (keyed
+// .../nested-plain-struct/<mix>/recursive), the other typeclasses must compile and be field-wise.
+var onDemandKinds = []Kind{KSlice, KSeq, KOption, KPtr, KTuple2, KMap}
+
+func viaName(k Kind) string { return kindNames[k] }
+
+func genOnDemandCase(r *rand.Rand) *Case {
+	c := &Case{}
+	p := &Pkg{Name: "od"}
+	g := &gctx{r: r, p: p, c: c}
+	wrapIn := func(k Kind, d *Decl) *TX {
+		switch k {
+		case KTuple2:
+			if chance(r, 50) {
+				return wrap(KTuple2, basic("int"), named(d))
+			}
+			return wrap(KTuple2, named(d), basic("string"))
+		case KMap:
+			return wrap(KMap, basic(pick(r, []string{"string", "int"})), named(d))
+		}
+		return wrap(k, named(d))
+	}
+	leaf := func(name, mix, via string, withMap bool) *Decl {
+		tcs := allTC
+		if withMap {
+			tcs = mapTCs
+		}
+		d := &Decl{Name: name, IsStruct: true, NestVis: mix, Shape: "ondemand-leaf", Via: via}
+		ts := []*TX{wrap(KSlice, g.basicType(tcs)), wrap(KPtr, g.basicType(tcs)), g.basicType(tcs)}
+		if chance(r, 50) {
+			ts = append(ts, wrap(KSeq, basic("string")))
+		}
+		r.Shuffle(len(ts), func(i, j int) { ts[i], ts[j] = ts[j], ts[i] })
+		for i, t := range ts {
+			fn := fmt.Sprintf("X%d", i+1)
+			if mix == visMixed && i%2 == 1 {
+				fn = fmt.Sprintf("x%d", i+1)
+			}
+			d.Fields = append(d.Fields, Field{fn, t})
+		}
+		return g.add(d)
+	}
+	build := func(root string, kinds []Kind, withMap bool) *Decl {
+		rd := &Decl{Name: root, IsStruct: true, Shape: "ondemand-root"}
+		for i, k := range kinds {
+			mix := []string{visAllExported, visMixed}[i%2]
+			next := kinds[(i+1)%len(kinds)]
+			sfx := fmt.Sprintf("%s%d", root[1:], i+1)
+			la := leaf("LA"+sfx, mix, "direct-below-"+viaName(k), withMap)
+			lb := leaf("LB"+sfx, mix, viaName(next)+"-below-"+viaName(k), withMap)
+			n := &Decl{Name: "N" + sfx, IsStruct: true, NestVis: visAllExported, Shape: "ondemand-node", Via: viaName(k)}
+			n.Fields = []Field{{"A", g.basicType(allTC)}, {"L", named(la)}, {"W", wrapIn(next, lb)}}
+			r.Shuffle(len(n.Fields), func(a, b int) { n.Fields[a], n.Fields[b] = n.Fields[b], n.Fields[a] })
+			g.add(n)
+			rd.Fields = append(rd.Fields, Field{fmt.Sprintf("X%d", i+1), wrapIn(k, n)})
+		}
+		rd.Fields = append(rd.Fields, Field{"Xb", g.basicType(allTC)})
+		return g.add(rd)
+	}
+	ra := build("RA", onDemandKinds[:5], false)
+	rm := build("RM", []Kind{KMap, KSlice, KOption}, true)
+	g.derive(allTC, ra, true)
+	g.derive(mapTCs, rm, true)
+	c.instrumentOrd(p)
+	c.Pkgs = []*Pkg{p}
+	c.Shapes = append(c.Shapes, "ondemand.depth-2-3-through-every-container")
+	c.ensure(r)
+	sort.Strings(c.Shapes)
+	return c
 }
